@@ -184,7 +184,11 @@ def run_c04(ck, tier):
         shape = None
         if m:
             cl = case_line_of(text, m.group(1))
-            if cl:
+            if cl and cl.split()[2] == "san":
+                # sanitiser cases carry no shape name on the case line: the oracle line names the stream
+                m3 = re.search(r"case=\d+ (pp-\S+)", offending_line)
+                shape = m3.group(1) if m3 else "san"
+            elif cl:
                 shape = shape_of_case(cl)
         if not shape:
             m2 = re.search(r"case=\d+ (\S+)", offending_line)
